@@ -713,3 +713,48 @@ def reach_on_error_path(b, start):
                     nxt = one or ([t["otherwise"]] if not zero else [t["otherwise"]])
         stack.extend(nxt)
     return seen
+
+
+# ---------------------------------------------------------------------------------------- validation by delegation
+#
+# `let base = IntVector::new(width)?;` validates `width` exactly as the inline test does: the constructor returns Ok only for
+# 1..=64 (its own obligation), so behind the Continue arm of the `?` (or the Ok arm of a match) the argument is in range and the
+# `width` field of the payload is the validated value.
+VALIDATING_CTORS = {"int_vector::IntVector::new": 0, "int_vector::IntVector::with_len": 1, "int_vector::IntVector::with_capacity": 1}
+
+
+def _ctor_call(x):
+    """The validating constructor call inside `branch(ctor(..))` / `ctor(..)`, or None."""
+    x = _c(x)
+    if isinstance(x, tuple) and x and x[0] == "discr":
+        x = _c(x[1])
+    if isinstance(x, tuple) and x and x[0] == "call" and x[1].endswith("::branch") and "Try" in x[1] and len(x[2]) == 1:
+        x = _c(x[2][0])
+    if isinstance(x, tuple) and x and x[0] == "call" and x[1] in VALIDATING_CTORS:
+        return x
+    return None
+
+
+def validated_by_ctor(facts, term):
+    """A dominating fact says a validating constructor accepted `term` as its width."""
+    term = _c(term)
+    for f in facts:
+        if f[0] != "discr" or f[2] != 0:
+            continue
+        c = _ctor_call(f[1])
+        if c is not None and _c(c[2][VALIDATING_CTORS[c[1]]]) == term:
+            return True
+    return False
+
+
+def ctor_payload_width(t):
+    """t = (branch(ctor(.., w, ..)) as Continue).0.width (or (ctor(..) as Ok).0.width): returns w, else None."""
+    t = _c(t)
+    if not (isinstance(t, tuple) and t and t[0] == "field" and t[2] == "width"):
+        return None
+    x = _c(t[1])
+    for _ in range(4):
+        if isinstance(x, tuple) and x and x[0] in ("field", "downcast"):
+            x = _c(x[1])
+    c = _ctor_call(x)
+    return _c(c[2][VALIDATING_CTORS[c[1]]]) if c is not None else None
